@@ -331,6 +331,39 @@ def export_query(pc, goal, axioms=None):
     return s.to_smt2()
 
 
+def _conjuncts(f):
+    if z3.is_and(f):
+        out = []
+        for c in f.children():
+            out.extend(_conjuncts(c))
+        return out
+    return [f]
+
+
+def _uses_seq(f):
+    t = f.sexpr()
+    return "seq." in t or "str." in t or "re." in t
+
+
+def export_noseq(pc, goal, axioms=None):
+    """the query with every assumption about strings / tag sequences left out (weaker assumptions, so an
+    `unsat` is still a proof).  z3 gives up early on quantifiers mixed with the sequence theory; most
+    obligations do not depend on tag contents at all."""
+    if _uses_seq(goal):
+        return None
+    kept = []
+    dropped = False
+    for f in pc:
+        for c in _conjuncts(f):
+            if _uses_seq(c):
+                dropped = True
+            else:
+                kept.append(c)
+    if not dropped:
+        return None
+    return export_query(kept, goal, axioms)
+
+
 def export_relaxed(pc, goal):
     """the same query without the axiom defining `cum` (source of candidate counterexamples)"""
     q = list(pc) + [z3.Not(goal)]
@@ -347,7 +380,7 @@ def export_relaxed(pc, goal):
     return s.to_smt2()
 
 
-def solve_text(text, relaxed, timeout_ms=10000, cvc5_timeout_ms=20000):
+def solve_text(text, relaxed, timeout_ms=10000, cvc5_timeout_ms=20000, noseq=None):
     """verdict dict for one exported query"""
     s = z3.Solver()
     s.set("timeout", int(timeout_ms))
@@ -357,6 +390,12 @@ def solve_text(text, relaxed, timeout_ms=10000, cvc5_timeout_ms=20000):
     dt = time.time() - t0
     if r == z3.unsat:
         return {"status": "discharged", "backend": "z3", "seconds": round(dt, 4)}
+    if r == z3.unknown and noseq:
+        s1 = z3.Solver()
+        s1.set("timeout", int(timeout_ms))
+        s1.from_string(noseq)
+        if s1.check() == z3.unsat:
+            return {"status": "discharged", "backend": "z3", "seconds": round(time.time() - t0, 4), "note": "without string assumptions"}
     if r == z3.sat:
         return {"status": "refuted", "backend": "z3", "seconds": round(dt, 4), "model": _model_str(s)}
     reason = s.reason_unknown()
